@@ -484,10 +484,24 @@ class C19(Prop):
     def generate(self, rng, tier):
         cases = []
         reps = 1 if tier == "quick" else 6
+        # the second fit of a fitted object first (several samples and feature sets per class)
+        for _ in range(4 * reps):
+            for cls in CLASSES:
+                cases.append(gen_case(rng, cls, "refit", "second_fit", "-"))
+        for cls in CARVERS + ["Discretizer"]:
+            for kinds in ("q", "c", "qc"):
+                c = gen_case(rng, cls, "refit", "second_fit", "-")
+                q, cc, _o = FEATS[cls]
+                c["feats"] = {"q": q if "q" in kinds else [], "c": cc if "c" in kinds else [], "o": []}
+                cases.append(c)
+        # carvers first (O5 was observed on BaseCarver.fit), MulticlassCarver without ordinal feature next
+        prio = {"BinaryCarver": 0, "ContinuousCarver": 1, "MulticlassCarver": 2}
+        cases.sort(key=lambda c: (prio.get(c["cls"], 3) + (1 if c["cls"] == "MulticlassCarver" and c["feats"]["o"] else 0)))
         for _ in range(reps):
             for cls in CLASSES:
                 for ep, mal, var in all_triples(cls):
-                    cases.append(gen_case(rng, cls, ep, mal, var))
+                    if (ep, mal) != ("refit", "second_fit"):
+                        cases.append(gen_case(rng, cls, ep, mal, var))
         return cases
 
     def search_cases(self, rng, neighbours, rnd):
@@ -581,8 +595,9 @@ class C19(Prop):
         order = ["x_is_frame", "x_is_none", "y_given", "y_is_series", "y_has_nan", "index_matches",
                  "index_same_len", "columns_present", "dev_given", "xdev_is_frame", "ydev_is_series",
                  "ydev_has_nan", "dev_index_matches", "dev_columns_present"]
+        f["has_ordinal"] = bool(case["feats"]["o"])
         order2 = ["y_is_01", "y_has_str", "y_all_str", "feature_overlap", "quant_has_str",
-                  "ordinal_unknown_value", "sort_by_ok"]
+                  "ordinal_unknown_value", "sort_by_ok", "has_ordinal"]
         return ("(mkInput " + " ".join(C.cbool(f[k]) for k in order) + f" {C.cnat(f['n_classes'])} "
                 + " ".join(C.cbool(f[k]) for k in order2) + ")")
 
@@ -610,15 +625,36 @@ class C19(Prop):
                 f"{unchanged_all(out)}")
 
     def finding_signatures(self, case, out, msg):
+        """coarse signature of the mechanism first, then the fine (class, entry, malformed class) one"""
         sigs = []
-        cls, ep, mal = case["cls"], case["ep"], case["mal"]
-        if ep == "refit" and out.get("outcome") == "assert" and not unchanged_all(out):
+        cls, ep, mal, var = case["cls"], case["ep"], case["mal"], case["var"].split("@")[0]
+        res = out.get("outcome")
+        if mal == "none" or (res == "assert" and unchanged_all(out)):
+            return sigs
+        if ep == "refit" and res == "assert" and not unchanged_all(out):
             sigs.append(f"refit_guard_evaluated_after_refitting:{cls}")
-        if ep == "refit" and out.get("outcome") == "ok":
+        if ep == "refit" and res == "ok":
             sigs.append(f"second_fit_accepted:{cls}")
-        if ep != "refit" and mal != "none" and out.get("outcome") == "ok":
+        if res in ("ok", "other"):
+            if cls == "ContinuousDiscretizer" and ep in ("fit", "refit"):
+                sigs.append("no_prepare_data:ContinuousDiscretizer")
+            elif mal == "x_not_frame" and var == "none":
+                sigs.append("x_none_not_asserted")
+            elif mal == "index_mismatch" and var == "shorter":
+                sigs.append("index_length_mismatch_not_asserted")
+            elif mal == "quant_str" and ep == "transform":
+                sigs.append("quant_str_at_transform_not_asserted")
+            elif mal == "ordinal_unknown" and cls == "OrdinalDiscretizer":
+                sigs.append("ordinal_unknown_accepted:OrdinalDiscretizer")
+            elif mal == "feature_overlap" and cls == "Discretizer":
+                sigs.append("feature_overlap_accepted:Discretizer")
+            elif mal == "y_str" and cls == "ContinuousCarver":
+                sigs.append("continuous_target_mixed_str_not_asserted")
+            elif mal == "missing_col" and cls == "MulticlassCarver" and "KeyError" in out.get("error", ""):
+                sigs.append("multiclass_missing_column_not_asserted")
+        if ep != "refit" and res == "ok":
             sigs.append(f"malformed_accepted:{cls}:{ep}:{mal}")
-        if mal != "none" and out.get("outcome") == "other":
+        if res == "other":
             sigs.append(f"not_assertion_error:{cls}:{ep}:{mal}")
         return sigs
 
@@ -657,6 +693,22 @@ class C19(Prop):
             if isinstance(o, dict):
                 k = o.get("outcome", "skip" if "skip" in o else "harness_error")
                 d["outcome"][k] = d["outcome"].get(k, 0) + 1
+        # every (class, entry point, malformed class) on which the implementation's answer is not
+        # "AssertionError and fitted object unchanged", by mechanism
+        fails = {}
+        for c, o in zip(cases, outs):
+            if not isinstance(o, dict) or "outcome" not in o:
+                continue
+            ok, msg = self.oracle(c, o)
+            if not ok:
+                sg = self.finding_signatures(c, o, msg)
+                k = sg[0] if sg else "unclassified: " + msg[:80]
+                fails.setdefault(k, {})
+                t = f"{c['cls']}.{c['ep']}[{c['mal']}/{c['var']}]->{o['outcome']}"
+                fails[k][t] = fails[k].get(t, 0) + 1
+        d["property_failures_by_mechanism"] = fails
+        for k in sorted(fails):
+            print(f"[C19] fails: {k}: {sum(fails[k].values())} case(s), e.g. {sorted(fails[k])[0]}", flush=True)
         return d
 
 
